@@ -130,6 +130,87 @@ func c19Scenario(nUpdates int) func() schedScenario {
 	}
 }
 
+// c19TwoGroupsScenario: every update reports on two rating groups with different tariffs (unit cost 2 and 5), so each
+// update runs several rating and account exchanges in a row. Whatever answer is late or lost, the unit cost the CHF
+// works with for a rating group is that group's own tariff (or the documented fallback of 1 when its tariff answer
+// never arrived) - never the tariff answered for the other group.
+func c19TwoGroupsScenario() schedScenario {
+	return schedScenario{
+		Cfg: WorldCfg{Accounts: []Account{{supiA, 1, "100000", "2"}, {supiA, 2, "100000", "5"}}, DelayMs: 6000, HorizonS: 400},
+		Body: func(w *World, sc *schedCtx) {
+			sc.Go("T1", func() {
+				h := w.ExecOps([]string{supiA}, []Op{mkCreate(0, "smf1")}, 1, false)
+				if len(h.Sess) == 0 {
+					return
+				}
+				ref := h.Sess[0].Ref
+				sc.Free()
+				var costs []map[int32]uint32
+				var codes []int
+				for i := 0; i < 2; i++ {
+					op := Op{K: "update", S: 0, Seq: int32(i + 1), MUs: []MU{
+						{RG: 1, Req: 40, Conts: []Cont{{Vol: 0, Seq: int32(10*i + 1)}}},
+						{RG: 2, Req: 30, Conts: []Cont{{Vol: 0, Seq: int32(10*i + 2)}}}}}
+					r := w.Do("POST", ccBase+"/chargingdata/"+ref+"/update", op.Request(supiA), nil)
+					codes = append(codes, r.Code)
+					s := w.Snapshot(false)
+					c := map[int32]uint32{}
+					for k, v := range s.UEs[supiA].UnitCost {
+						c[k] = v
+					}
+					costs = append(costs, c)
+					if i == 0 {
+						var b1, b2 int64
+						fmt.Sscan(s.Bal[balKey(supiA, 1)], &b1)
+						fmt.Sscan(s.Bal[balKey(supiA, 2)], &b2)
+						sc.Results["debited"] = [2]int64{100000 - b1, 100000 - b2}
+					}
+				}
+				time.Sleep(30 * time.Second)
+				vs.Quiesce()
+				sc.Stop()
+				sc.Results["costs"] = costs
+				sc.Results["codes"] = codes
+			})
+		},
+		Observe: func(w *World, sc *schedCtx) (string, []Finding) {
+			var fs []Finding
+			costs, _ := sc.Results["costs"].([]map[int32]uint32)
+			codes, _ := sc.Results["codes"].([]int)
+			own := map[int32]uint32{1: 2, 2: 5}
+			for i, c := range costs {
+				for rg, v := range c {
+					if v != own[rg] && v != 1 {
+						fs = append(fs, Finding{"tariff-of-another-rating-group", fmt.Sprintf("after update %d (answered %v) the CHF works with unit cost %d for rating group %d (its tariff is %d; 1 when no tariff answer arrived): it acted on the tariff answered for another rating group", i+1, codes, v, rg, own[rg])})
+					}
+				}
+			}
+			// what the first update had debited when it was answered: the requested volume at the group's own tariff, at the
+			// fallback of 1, or nothing (exchange not completed) - never the volume at the other group's tariff
+			deb, _ := sc.Results["debited"].([2]int64)
+			for i, rg := range []int32{1, 2} {
+				req := []int64{40, 30}[i]
+				if d := deb[i]; d != 0 && d != req*int64(own[rg]) && d != req {
+					fs = append(fs, Finding{"tariff-of-another-rating-group", fmt.Sprintf("the first update (answered %v) asked for %d units of rating group %d (tariff %d) and %d was debited from the account: priced with a tariff that was not answered for this rating group", codes, req, rg, own[rg], d)})
+				}
+			}
+			return fmt.Sprintf("codes=%v costs=%v debited=%v", codes, costs, deb), fs
+		},
+		Elig: func(def, alt string) bool {
+			if alt != "DELAY" && alt != "TIME" {
+				return false
+			}
+			switch kindOf(def) {
+			case "net.Read":
+				return strings.HasSuffix(objOf(def), ".cli")
+			case "d.RLock", "d.WLock":
+				return true
+			}
+			return false
+		},
+	}
+}
+
 // allNormal: every earlier update was granted exactly what it asked for (so the reservation is predictable)
 func allNormal(rs []c19Res) bool {
 	for _, r := range rs {
@@ -143,6 +224,7 @@ func allNormal(rs []c19Res) bool {
 func init() {
 	schedScenarios["c19-seq2"] = c19Scenario(2)
 	schedScenarios["c19-seq3"] = c19Scenario(3)
+	schedScenarios["c19-two-groups"] = c19TwoGroupsScenario
 	checks["C19"] = func(t *testing.T) int {
 		rep := NewReport("C19")
 		pool := NewPool(0)
@@ -152,9 +234,9 @@ func init() {
 			bound int
 			cap   int
 		}
-		runs := []run{{"c19-seq3", 1, 0}, {"c19-seq2", 2, 12000}}
+		runs := []run{{"c19-seq3", 1, 0}, {"c19-seq2", 2, 12000}, {"c19-two-groups", 1, 0}}
 		if rep.Tier == "thorough" {
-			runs = []run{{"c19-seq3", 2, 0}, {"c19-seq2", 3, 200000}}
+			runs = []run{{"c19-seq3", 2, 0}, {"c19-seq2", 3, 200000}, {"c19-two-groups", 2, 60000}}
 		}
 		total := 0
 		var per []map[string]any
